@@ -14,6 +14,13 @@
     types/sensitivetype.go    Sensitive.ToString       → `fmtSensitive`   (a constant; the context is ignored)
     types/types.go            TypeToString, basicTypeToString → `fmtX (.typ …)`, `typeFinish` (name, then the parameters as an Array
                                                                            under the SAME map and `ctx.Subsequent()`; `#s` quotes; string flags)
+    types/typealiastype.go    TypeAliasType.ToString   → `fmtX (.talias …)` (the name whatever the letter and the flags; `%#b`: ` = ` and the resolved
+                                                                           type under the SAME context — where a type rejects the letter b)
+    types/objecttype.go       objectType.ToString, basicTypeToString → `fmtX (.otype …)`, `otypeEntries`, `otypeMembers` (a named object type is
+                                                                           its name; an anonymous one is `Object[{key => value, …}]` of its init hash:
+                                                                           `attributes` / `functions` with unquoted key and quoted member names, their
+                                                                           types under the SAME map two levels in, the other values under the container
+                                                                           formats one level in; alt: one key per line)
     types/format.go           formatContext.Subsequent → `Ind.ctxSubsequent`
     types/objecttype.go       ObjectToString           → `fmtX (.obj …)` (line break, name, the init hash by Hash.ToString2 with `(`)
     types/hashtype.go         Hash.ToString2 (delim)   → `hashAssembleD` (the `(` form never takes the format's delimiter and writes no break)
@@ -42,22 +49,29 @@ inductive XVal where
   | tstamp (text : Str)
   | sensitive (v : XVal)
   | typ (name : Str) (params : List XVal)
+  | talias (name : Str) (resolved : XVal)       -- a type alias used as a value
+  | otype (name : Str) (ih : List OEntry)      -- an object type used as a value: its name ("" = anonymous) and its init hash
   | obj (name : Str) (es : List XEntry)
   | array (vs : List XVal) | hash (es : List XEntry)
 inductive XEntry where
   | mk (k v : XVal)
+/-- an entry of the init hash of an object type as `basicTypeToString` switches on it: `attributes` / `functions` hold members
+    (name ↦ type or hash), any other key a value -/
+inductive OEntry where
+  | plain (key : Str) (v : XVal)
+  | members (key : Str) (ms : List XEntry)
 end
 
 inductive XKind where
   | int | float | str | bool | undef | dflt | bin | regexp | arr | hash
-  | semver | semverRange | uri | tspan | tstamp | sensitive | typ | obj
+  | semver | semverRange | uri | tspan | tstamp | sensitive | typ | obj | talias | otype
   deriving DecidableEq, Repr
 
 def XVal.kind : XVal → XKind
   | .undef => .undef | .dflt => .dflt | .bool _ => .bool | .int _ => .int | .float _ => .float
   | .str _ => .str | .regexp _ => .regexp | .binary _ _ => .bin | .array _ => .arr | .hash _ => .hash
   | .semver _ => .semver | .semverRange _ _ => .semverRange | .uri _ => .uri | .tspan _ => .tspan | .tstamp _ => .tstamp
-  | .sensitive _ => .sensitive | .typ _ _ => .typ | .obj _ _ => .obj
+  | .sensitive _ => .sensitive | .typ _ _ => .typ | .obj _ _ => .obj | .talias _ _ => .talias | .otype _ _ => .otype
 
 /-- `isContainer` (arraytype.go) in a context without the `expanded` property -/
 def XVal.isContainer : XVal → Bool
@@ -183,6 +197,14 @@ def hashOf (f : Fmt) (ind : Ind) (paren : Bool) (r : ResL (Str × Str)) : Res :=
   | .ok parts => .text (hashAssembleD f ind paren parts)
   | .err e => e
 
+/-- the keys of the init hash whose value `basicTypeToString` writes as members -/
+def isMemberKey (k : Str) : Bool := k = "attributes".toList || k = "functions".toList
+
+/-- what precedes an entry of the expanded object type: `,` (and a blank unless alt) after the first, in alt mode a line break and
+    the padding of the entries' level -/
+def otypeLead (f : Fmt) (first : Bool) (pad : Str) : Str :=
+  (if first then [] else [','] ++ (if f.alt then [] else [' '])) ++ (if f.alt then '\n' :: pad else [])
+
 mutual
 /-- `v.ToString(b, ctx, g)` with ctx = (format map `m`, indentation `ind`), every kind -/
 def fmtX {κ : Type} (ks : KeySys κ) (io : FloatIO) (m : GMap κ) (ind : Ind) : XVal → Res
@@ -212,6 +234,24 @@ def fmtX {κ : Type} (ks : KeySys κ) (io : FloatIO) (m : GMap κ) (ind : Ind) :
          let ta := getG ks m (.array (p :: ps))
          if !isArrayLetter ta.f.letter then .reported .unsupported
          else arrayOf ta.f ind' (fmtElemsX ks io m (cfOfG ks ta) (arrayChildInd ta.f ind') (p :: ps)))
+  | .talias name resolved =>
+    let t := getG ks m (.talias name resolved)
+    if name = "UnresolvedAlias".toList then .text "TypeAlias".toList
+    else if !(t.f.alt && t.f.letter = 'b') then .text name
+    else (fmtX ks io m ind resolved).bind fun s => .text (name ++ " = ".toList ++ s)
+  | .otype name ih =>
+    let t := getG ks m (.otype name ih)
+    if !isTypeLetter t.f.letter then .reported .unsupported
+    else
+      let body : Res :=
+        if !name.isEmpty then .text name
+        else
+          -- basicTypeToString of an anonymous object type: indent2 / indent3 = Increase(alt) once / twice
+          let i2 := ind.increase t.f.alt
+          let i3 := i2.increase t.f.alt
+          (otypeEntries ks io m (cfOfG ks t) t.f i2 i3 true ih).bind fun s =>
+            .text ("Object[{".toList ++ s ++ (if t.f.alt then '\n' :: ind.padding else []) ++ "}]".toList)
+      typeFinish t.f [] body
   | .obj name es =>
     -- ObjectToString: the break of the context's indentation, the type name, InitHash().ToString2(…, '(')
     let t := getG ks m (.obj name es)
@@ -236,6 +276,29 @@ def fmtX {κ : Type} (ks : KeySys κ) (io : FloatIO) (m : GMap κ) (ind : Ind) :
       else arrayOf ta.f ind (fmtEntryArrsX ks io (cfOfG ks ta) (arrayChildInd ta.f ind) es)
     else if !isHashLetter t.f.letter then .reported .unsupported
     else hashOf t.f ind false (fmtPairsX ks io m (cfOfG ks t) (hashChildInd t.f ind) es)
+
+/-- the entries of the init hash of an expanded object type: a value under the same map when it is a container, else under the
+    container formats, one level in; the members of `attributes` / `functions` between braces -/
+def otypeEntries {κ : Type} (ks : KeySys κ) (io : FloatIO) (m cf : GMap κ) (f : Fmt) (i2 i3 : Ind) (first : Bool) : List OEntry → Res
+  | [] => .text []
+  | .plain key v :: rest =>
+    (fmtX ks io (if v.isContainer then m else cf) i2 v).bind fun sv =>
+      (otypeEntries ks io m cf f i2 i3 false rest).bind fun sr =>
+        .text (otypeLead f first i2.padding ++ key ++ " => ".toList ++ sv ++ sr)
+  | .members key ms :: rest =>
+    -- "The keys should not be quoted in this hash"
+    (otypeMembers ks io m f i3 true ms).bind fun s =>
+      (otypeEntries ks io m cf f i2 i3 false rest).bind fun sr =>
+        .text (otypeLead f first i2.padding ++ key ++ " => ".toList ++ (['{'] ++ s ++ (if f.alt then '\n' :: i2.padding else []) ++ ['}']) ++ sr)
+
+/-- the members of `attributes` / `functions`: quoted name, ` => `, the member's type (or hash) under the same map two levels in -/
+def otypeMembers {κ : Type} (ks : KeySys κ) (io : FloatIO) (m : GMap κ) (f : Fmt) (i3 : Ind) (first : Bool) : List XEntry → Res
+  | [] => .text []
+  | .mk k v :: rest =>
+    let name : Str := match k with | .str s => s | _ => []
+    (fmtX ks io m i3 v).bind fun sv =>
+      (otypeMembers ks io m f i3 false rest).bind fun sr =>
+        .text (otypeLead f first i3.padding ++ puppetQuote name ++ " => ".toList ++ sv ++ sr)
 
 /-- `childToString` for each element: a container child keeps the parent's map, any other child gets `cf` -/
 def fmtElemsX {κ : Type} (ks : KeySys κ) (io : FloatIO) (m cf : GMap κ) (ci : Ind) : List XVal → ResL (Str × Bool)
@@ -290,7 +353,7 @@ def XKey.accepts : XKey → XKind → Bool
   | .base .bin, k => k = .bin | .base .arr, k => k = .arr | .base .hash, k => k = .hash
   | .base .coll, k => k = .arr || k = .hash
   | .base .undef, k => k = .undef | .base .dflt, k => k = .dflt | .base .regexp, k => k = .regexp
-  | .base .obj, k => k = .obj | .base .typ, k => k = .typ
+  | .base .obj, k => k = .obj | .base .typ, k => k = .typ || k = .talias || k = .otype
   | .semver, k => k = .semver | .semverRange, k => k = .semverRange | .uri, k => k = .uri
   | .tspan, k => k = .tspan | .tstamp, k => k = .tstamp | .sensitive, k => k = .sensitive
 
@@ -301,7 +364,7 @@ def XKind.key : XKind → XKey
   | .int => .base .int | .float => .base .float | .str => .base .str | .bool => .base .bool | .undef => .base .undef
   | .dflt => .base .dflt | .bin => .base .bin | .regexp => .base .regexp | .arr => .base .arr | .hash => .base .hash
   | .semver => .semver | .semverRange => .semverRange | .uri => .uri | .tspan => .tspan | .tstamp => .tstamp
-  | .sensitive => .sensitive | .typ => .base .typ | .obj => .base .obj
+  | .sensitive => .sensitive | .typ => .base .typ | .obj => .base .obj | .talias => .base .typ | .otype => .base .typ
 
 /-- `px.ToString2(v, px.NewFormatContext(<type accepting v>, NewFormat(directive), DefaultIndentation))` -/
 def formatDirectiveX (io : FloatIO) (directive : Str) (v : XVal) : Res :=
